@@ -1,2 +1,65 @@
-/-! Driver for C26 (stub: not built yet). -/
-def main : IO Unit := pure ()
+import Drivers.Proto
+import PymocaVerif.Model.Cli
+/-! Driver for C26: evaluates `Cli.main` on one abstracted invocation. -/
+open Lean Drivers PymocaVerif.Cli
+
+def parseParse (s : String) : Except String ParseOutcome :=
+  match s with
+  | "ok" => pure .ok | "error" => pure .error | "raise" => pure .raise
+  | o => throw s!"bad parse outcome {o}"
+
+def parseSympy (s : String) : Except String SympyOutcome :=
+  match s with
+  | "ok" => pure .ok | "false" => pure .retFalse | "raise" => pure .raise
+  | o => throw s!"bad sympy outcome {o}"
+
+def parseFile (j : Json) : Except String FileInfo := do
+  pure { stem := ← getStr j "stem", dir := ← getNat j "dir", parse := ← parseParse (← getStr j "parse") }
+
+def parsePath (j : Json) : Except String PathInfo := do
+  let fs ← (← getArr j "files").toList.mapM parseFile
+  pure { pexists := ← getBool j "exists", files := fs }
+
+def parsePair (j : Json) : Except String (Nat × Bool) := do
+  let a ← j.getArr?
+  let d ← (a[0]?.getD Json.null).getNat?
+  let b ← (a[1]?.getD Json.null).getBool?
+  pure (d, b)
+
+def parseModel (j : Json) : Except String ModelReq := do
+  let cs ← (← getArr j "casadi").toList.mapM parsePair
+  pure { name := ← getStr j "name", flattenOk := ← getBool j "flatten_ok",
+         sympy := ← parseSympy (← getStr j "sympy"), casadi := cs }
+
+def parseInv (req : Json) : Except String Inv := do
+  let ap ← match (← getStr req "argparse") with
+    | "ok" => pure Argparse.ok | "error" => pure Argparse.error | "exit0" => pure Argparse.exit0
+    | o => throw s!"bad argparse verdict {o}"
+  let tg ← match (← getStr req "target") with
+    | "none" => pure Target.none | "sympy" => pure Target.sympy | "casadi" => pure Target.casadi
+    | o => throw s!"bad target {o}"
+  let paths ← (← getArr req "paths").toList.mapM parsePath
+  let opts ← (← getArr req "options").toList.mapM (·.getStr?)
+  let models ← (← getArr req "models").toList.mapM parseModel
+  pure { argparse := ap, target := tg, outdirOk := ← getBool req "outdir_ok", paths := paths,
+         options := opts, models := models }
+
+def handle (req : Json) : Except String Json := do
+  let op ← getStr req "op"
+  match op with
+  | "cli.main" => do
+    let v ← match (← getStr req "variant") with
+      | "asis" => pure Variant.asis | "fixed" => pure Variant.fixed
+      | o => throw s!"bad variant {o}"
+    let inv ← parseInv req
+    let spec := usageCount inv + parseErrorFiles inv + failingModels inv
+    match PymocaVerif.Cli.main v inv with
+    | .ret n w => pure (Json.mkObj [("ok", true), ("kind", "return"), ("code", Json.num (n : Int)),
+        ("written", jstrs w), ("spec", Json.num (spec : Int))])
+    | .sysexit n => pure (Json.mkObj [("ok", true), ("kind", "sysexit"), ("code", Json.num (n : Int)),
+        ("written", jstrs []), ("spec", Json.num (spec : Int))])
+    | .raised => pure (Json.mkObj [("ok", true), ("kind", "raised"), ("written", jstrs []),
+        ("spec", Json.num (spec : Int))])
+  | o => throw s!"unknown-op {o}"
+
+def main : IO Unit := serve handle
